@@ -77,7 +77,7 @@ close during the loop; the loop needs two extra rounds -/
 example :
     ∃ s, run realCfg exDisk (init exDisk [.edit 0 1, .edit 1 2, .edit 0 3, .close 1] 1)
       [.main, .main, .main, .reload, .rstep, .main, .main, .main, .rstep, .rstep, .rstep, .main, .main, .rstep,
-       .main, .rstep, .rstep, .main, .main, .rstep, .rstep, .rstep] = some s ∧
+       .main, .rstep, .rstep, .main, .main, .rstep, .rstep, .rstep, .main] = some s ∧
       quiescentB s = true ∧ s.an 0 = some 3 ∧ s.an 1 = none ∧ s.wm 0 = some 3 := by
   decide
 
